@@ -43,7 +43,7 @@ def literal(attr, k):
     return N(10 + k)
 
 
-def build(attr, depth, present, named):
+def build(attr, depth, present, named, shadow=False):
     """present: set of level names; named: the level whose expression is the name q (or None).
     Returns (Lib, target class, list of (level, Mod owner list, index) for spelling control)."""
     names = level_names(depth)
@@ -87,9 +87,17 @@ def build(attr, depth, present, named):
             base = Cls("Base", comps=[h, q("Base")])
             path = ["h", "l", "x"]
     classes.append(base)
-    mid = Cls("Mid", exts=[Ext("Base", [mk(path, "E")] if "E" in present else [])])
-    classes.append(mid)
-    top = Cls("Top", comps=[Comp("m", "Mid", mods=[mk(path, "C")] if "C" in present else []), q("Top")])
+    if shadow:
+        # the class of component m has the same short name as the class that instantiates it (Lib.Top in Top):
+        # a scope must be identified by the class, not by its short name
+        mid = Cls("Top", exts=[Ext("Base", [mk(path, "E")] if "E" in present else [])])
+        classes.append(Cls("Lib", kind="package", classes=[mid]))
+        mtype = "Lib.Top"
+    else:
+        mid = Cls("Mid", exts=[Ext("Base", [mk(path, "E")] if "E" in present else [])])
+        classes.append(mid)
+        mtype = "Mid"
+    top = Cls("Top", comps=[Comp("m", mtype, mods=[mk(path, "C")] if "C" in present else []), q("Top")])
     classes.append(top)
     outer = Cls("Outer", comps=[Comp("t", "Top", mods=[mk(["m"] + path, "O")] if "O" in present else []), q("Outer")])
     classes.append(outer)
@@ -156,15 +164,18 @@ def programs(tier):
                                 for combo in itertools.product(*per):
                                     flipsets.add(tuple(sorted(i for c in combo for i in c)))
                         for fl in sorted(flipsets):
-                            jobs.append((attr, depth, tuple(sorted(present, key=names.index)), named, fl))
+                            jobs.append((attr, depth, tuple(sorted(present, key=names.index)), named, fl, False))
+                        if named in ("C", "O", "E"):
+                            # same hierarchy with the class of m named like the class that contains m
+                            jobs.append((attr, depth, tuple(sorted(present, key=names.index)), named, (), True))
     return jobs
 
 
 def spelling_kind(job):
     """Class of the spelling for signatures: per flipped link whether it is an attribute link."""
-    attr, depth, present, named, flips = job
+    attr, depth, present, named, flips = job[:5]
     if not flips:
-        return "default-spelling"
+        return "default-spelling" + (":same-short-class-name" if len(job) > 5 and job[5] else "")
     lv_of_link = link_levels((attr, depth, frozenset(present), named))
     kinds = set()
     # the last link of a level's path is the attribute link (for attribute modifications)
@@ -179,13 +190,14 @@ def spelling_kind(job):
 
 
 def check(job):
-    attr, depth, present, named, flips = job
-    lib, target = build(attr, depth, frozenset(present), named)
+    attr, depth, present, named, flips = job[:5]
+    shadow = bool(job[5]) if len(job) > 5 else False
+    lib, target = build(attr, depth, frozenset(present), named, shadow)
     text = lib.text(Spelling(flips=flips))
-    case = {"job": [attr, depth, list(present), named, list(flips)], "text": text}
+    case = {"job": [attr, depth, list(present), named, list(flips), shadow], "text": text}
     flat = F.flatten(lib, target)
     exp = flatobs.expected(flat)
-    group = (attr, depth, present, named)
+    group = (attr, depth, present, named, shadow)
     try:
         obs = flatobs.normalise_obs(flatobs.observe(text, target))
     except Exception as e:
@@ -227,7 +239,7 @@ def run(ctx):
     # (ii) spelling groups: all accepted members flatten to one canonical model
     for g, canons in groups.items():
         if len(canons) > 1:
-            ctx.violation("spellings-differ:%s" % g[0], "accepted spellings of %r flatten to %d different models" % (g, len(canons)), {"group": [g[0], g[1], list(g[2]), g[3]]})
+            ctx.violation("spellings-differ:%s" % g[0], "accepted spellings of %r flatten to %d different models" % (g, len(canons)), {"group": [g[0], g[1], list(g[2]), g[3], g[4]]})
     for k in (0, len(jobs) // 2, len(jobs) - 1):
         ctx.sample({"job": jobs[k], "text": res[k]["text"], "outcome": res[k]["outcome"]})
     ctx.coverage.update(
@@ -253,8 +265,9 @@ def run(ctx):
 def replay(case):
     if "job" not in case:
         return True
-    a, d, p, n, f = case["job"]
-    r = check((a, d, tuple(p), n, tuple(f)))
+    a, d, p, n, f = case["job"][:5]
+    sh = case["job"][5] if len(case["job"]) > 5 else False
+    r = check((a, d, tuple(p), n, tuple(f), sh))
     print(r["text"])
     print(r["outcome"], [m.split("\n")[0] for _, m, _ in r["viol"]] or "ok")
     return not r["viol"]
